@@ -246,6 +246,9 @@ func genTable(s *Stream, idx int, o *GenOpts) *TableDef {
 	if s.Chance(1, 40) {
 		t.DB = strings.Repeat("D", 64)
 	}
+	if s.Chance(1, 10) {
+		t.DB = []string{"mysql", "sys", "performance_schema", "information_schema"}[s.Weighted(5, 1, 1, 1)]
+	}
 	ncols := 1 + s.N(o.MaxCols)
 	if o.WideTables && s.Chance(1, 25) {
 		ncols = 250 + s.N(351)
@@ -574,7 +577,8 @@ func (b *builder) queryEvent(ts uint32, db, sql string) (*Event, *[3]int32) {
 }
 
 func (b *builder) pickDB() string {
-	return []string{"db", "shop", "", "test_db"}[b.s.N(4)]
+	// (the server's own schemas are ordinary default databases for the statements of a session)
+	return []string{"db", "shop", "", "test_db", "db", "shop", "mysql", "sys", "information_schema", "performance_schema"}[b.s.N(10)]
 }
 
 // ignorable adds 1..2 events that must never alter grouping.
